@@ -2844,6 +2844,7 @@ func (uconn *UConn) ApplyPreset(p *ClientHelloSpec) error {
 
 	// Check whether NPN extension actually exists
 	var haveNPN bool
+	var haveALPN bool
 
 	// reGrease, and point things to each other
 	for _, e := range uconn.Extensions {
@@ -2933,12 +2934,20 @@ func (uconn *UConn) ApplyPreset(p *ClientHelloSpec) error {
 			}
 		case *NPNExtension:
 			haveNPN = true
+		case *ALPNExtension:
+			haveALPN = true
 		}
 	}
 
 	// The default golang behavior in makeClientHello always sets NextProtoNeg if NextProtos is set,
 	// but NextProtos is also used by ALPN and our spec nmay not actually have a NPN extension
 	hello.NextProtoNeg = haveNPN
+	// Likewise makeClientHello copies Config.NextProtos into the hello's ALPN list. Without an ALPN
+	// extension in the spec nothing is offered on the wire, so a protocol selected by the server
+	// must not be accepted on the strength of the Config (ALPNExtension sets the list itself).
+	if !haveALPN {
+		hello.AlpnProtocols = nil
+	}
 
 	err = uconn.sessionController.syncSessionExts()
 	if err != nil {
